@@ -55,7 +55,25 @@ pub trait TLVWrite {
     }
 
     /// Write a TLV tag and value to the TLV stream.
+    ///
+    /// Returns an error with code `ErrorCode::InvalidData` - without writing anything - if the value is a
+    /// string (`Str8l`/`Str16l`/`Str32l` or `Utf8l`/`Utf16l`/`Utf32l`) whose length does not fit in the length
+    /// field of its element type, as the generated TLV stream would otherwise carry a truncated length.
     fn tlv(&mut self, tag: &TLVTag, value: &TLVValue) -> Result<(), Error> {
+        let len_fits = match value {
+            TLVValue::Str8l(a) => u8::try_from(a.len()).is_ok(),
+            TLVValue::Str16l(a) => u16::try_from(a.len()).is_ok(),
+            TLVValue::Str32l(a) => u32::try_from(a.len()).is_ok(),
+            TLVValue::Utf8l(a) => u8::try_from(a.len()).is_ok(),
+            TLVValue::Utf16l(a) => u16::try_from(a.len()).is_ok(),
+            TLVValue::Utf32l(a) => u32::try_from(a.len()).is_ok(),
+            _ => true,
+        };
+
+        if !len_fits {
+            Err(ErrorCode::InvalidData)?;
+        }
+
         self.raw_value(tag, value.value_type(), &[])?;
 
         match value {
@@ -628,6 +646,31 @@ mod tests {
             buf,
             [21, 4, 12, 36, 1, 13, 5, 0x12, 0x012, 37, 2, 0x13, 0x13, 54, 3, 9, 24, 24, 0, 0]
         );
+    }
+
+    #[test]
+    fn test_tlv_string_length_must_fit() {
+        let data = [0xab; 300];
+        let mut buf = [0; 400];
+        let mut tw = WriteBuf::new(&mut buf);
+
+        // 300 octets do not fit in the 1-octet length field of `Str8l`: refused, nothing written
+        assert!(tw
+            .tlv(&TLVTag::Anonymous, &TLVValue::Str8l(&data))
+            .is_err());
+        assert!(tw.as_slice().is_empty());
+
+        // ... but fit in the 2-octet length field of `Str16l`
+        tw.tlv(&TLVTag::Anonymous, &TLVValue::Str16l(&data))
+            .unwrap();
+        assert_eq!(&[0x11, 0x2c, 0x01, 0xab], &tw.as_slice()[..4]);
+        assert_eq!(3 + 300, tw.as_slice().len());
+
+        // The boundary: 255 octets are fine
+        tw.reset();
+        tw.tlv(&TLVTag::Anonymous, &TLVValue::Str8l(&data[..255]))
+            .unwrap();
+        assert_eq!(2 + 255, tw.as_slice().len());
     }
 
     #[test]
